@@ -5,6 +5,7 @@ R12.2 source is homogeneous linear in the three profile derivatives; _dfeq == d/
 R12.3 one linear system: deltaF = solve(operator, source) from one assembly; reshapes share order and factor list
 R12.4 axis roles of every factor in the Liouville and collision products; matrices built for the right direction/basis
 R12.5 the background is boosted on a deep copy
+R12.6 deltaF is converted to grid values on every polynomial axis before z-dependent point-wise weights are applied
 """
 from __future__ import annotations
 
@@ -429,3 +430,7 @@ def rules(chk: Check) -> None:
     r12_3(chk, fi)
     r12_4(chk, fi, arms)
     r12_5(chk)
+    # basis independence of everything derived from deltaF (shared rule with C13)
+    from .c13 import cardinal_before_weights
+    cardinal_before_weights(chk, "R12.6")
+    chk.floor("R12.6", 2)
